@@ -96,6 +96,12 @@ def main():
         shutil.rmtree(pat, ignore_errors=True)
     notes = open(os.path.join(dst, "NOTES.md")).read() if os.path.exists(os.path.join(dst, "NOTES.md")) else ""
     meta.update(notes_summary(os.path.join(dst, "NOTES.md")))
+    try:
+        # (the result of a whole-suite run against this patch is recorded by another tool: keep it)
+        old = json.load(open(os.path.join(dst, "meta.json")))
+        meta.update({k: v for k, v in old.items() if k.startswith("suite_") or k.startswith("slow_")})
+    except (OSError, ValueError):
+        pass
     json.dump(meta, open(os.path.join(dst, "meta.json"), "w"), indent=1)
     print(json.dumps({k: meta[k] for k in ("property", "variant", "confirmed", "demo_clean_rc", "demo_patched_rc", "fast_tests_pass", "caught_by")}), meta["checks"])
 
